@@ -251,3 +251,5 @@ def run(F, rep, tier):
             rep.check(not chain_bad and seen_defs >= 1, "C10-R7", "namespace-is-hash-of-whole-name" if not chain_bad else "namespace-derivation:%s" % ",".join(sorted(set(chain_bad)))[:60],
                       "code_block computes the namespace id from `%s`, which is derived from the fence tag through %s: names that differ only in the discarded part share one namespace" % (render(arg)[:30], sorted(set(chain_bad))),
                       "code_block (mech_syntax.lib)", sample={"hashed": render(arg), "definitions_followed": seen_defs})
+    from rules.loopshape import scope_restored_on_every_exit
+    scope_restored_on_every_exit(F, rep, "C10-R8")
